@@ -932,6 +932,8 @@ class Fn:
             f, ft = self.fields[m]
             if ft != ty and not (ft == "bytes" and ty == "obytes"):
                 raise Untranslatable("assignment of %s to %s" % (ty, m))
+            if ft == "bytes" and ty == "obytes":
+                code = "(%s.getD [])" % code
             return ["let s := { s with %s := %s }" % (f, code)], env
         l0 = strip(lhs)
         if l0.get("kind") == "DeclRefExpr" and l0.get("referencedDecl", {}).get("name") in env:
